@@ -26,6 +26,15 @@ def _edit(fault, seed):
 
 
 def case_e2e(p):
+    try:
+        return _case_e2e(p)
+    except Exception as e:  # noqa: BLE001
+        if p["fault"] == "honest":
+            return [(f"e2e:{p['transport']}:honest-session-does-not-interoperate:{type(e).__name__}", {"transport": p["transport"], "err": str(e)[:200]})]
+        raise
+
+
+def _case_e2e(p):
     tr, fault = p["transport"], p["fault"]
     seed = p.get("seed", 0)
     det = {"transport": tr, "fault": fault}
